@@ -1054,12 +1054,16 @@ def gen_c08(T, tier, seed, budget, out: Outcome):
     t0 = time.time()
     n = 400 if tier == "quick" else 20000
     out.rule = ("abstract molecules (<=12 atoms incl. D/T) rendered as V2000 with charge codes or M CHG/M RAD lines (stale codes that must be superseded, "
-                "explicit zero entries, ISO entries with arbitrary values naming D/T atoms, 1-8 entries per line over shuffled lines, unrelated M/G/V lines) and as V3000. "
+                "explicit zero entries, ISO entries with arbitrary values naming D/T atoms, 1-8 entries per line over shuffled lines, unrelated M/G/V lines; a quarter of the "
+                "molecules without coordinates, i.e. with byte-identical atom lines) and as V3000; all in one process, so that state carried between reads shows. "
                 "Non-trivial = distinct V2000 renderings.")
     for _ in range(n):
         if time.time() - t0 > budget or len(out.violations) >= 3:
             return
         m = molgen.rand_mol_v2000(rnd, 12)
+        if rnd.random() < .25:  # a structure without coordinates: atoms of one element have byte-identical atom lines
+            for a in m.atoms:
+                a["x"] = a["y"] = a["z"] = 0.0
         mode = {"chg_lines": rnd.random() < .6, "stale_codes": rnd.random() < .5, "zeros": rnd.random() < .3, "extras": True, "iso_on_dt": rnd.random() < .4}
         if not mode["chg_lines"]:
             for a in m.atoms:
@@ -1182,6 +1186,9 @@ def gen_c06(T, tier, seed, budget, out: Outcome):
             kw["extra_kw"] = True
         elif dim == "CRLF":
             kw["crlf"] = True
+            if rnd.random() < .6:  # line endings must not interact with continuation lines either
+                kw["cuts"] = True
+                kw["blank_runs"] = rnd.random() < .5
         else:
             kw["cuts"] = True
             kw["blank_runs"] = True
@@ -1302,9 +1309,15 @@ def run(it):
             s = serialize_molecule(c)
             body = "\n".join(graph_to_molfile(c).split("\n")[2:])
             return [s, list(map(str, c.nodes(data=True))), list(map(str, c.edges(data=True))), hashlib.sha256(body.encode()).hexdigest()]
+        elif it["kind"] == "layout":
+            g = graph_from_molfile_text(it["text"])
+            body = "\n".join(graph_to_molfile(g, calc_coordinates=True).split("\n")[2:])
+            return [hashlib.sha256(body.encode()).hexdigest()]
         else:
             g = graph_from_tucan(it["text"])
-            return [serialize_molecule(canonicalize_molecule(g)), list(map(str, g.nodes(data=True))), list(map(str, g.edges(data=True)))]
+            nodes, edges = list(map(str, g.nodes(data=True))), list(map(str, g.edges(data=True)))
+            direct = serialize_molecule(g)  # a parsed graph may be serialized as it is
+            return [serialize_molecule(canonicalize_molecule(g)), nodes, edges, direct]
     except TucanParserException as e:
         return ["TucanParserException", str(e)]
     except Exception as e:
@@ -1325,8 +1338,12 @@ if mode == "threads":
     out["__inconsistent__"] = bad
 else:
     out = {}
+    again = []
     for i in order:
         out[str(i)] = run(items[i])
+        if items[i].get("twice", True) and run(items[i]) != out[str(i)]:
+            again.append(i)
+    out["__history__"] = again
 print(json.dumps(out, sort_keys=True))
 '''
 
@@ -1350,39 +1367,88 @@ def gen_c14(repo, tier, seed, budget, out: Outcome, workdir):
                                    "  1  2  2  0  0  0  0"] + props + ["M  END"])
     for props in ([], ["M  ISO  1   1  13"], ["M  RAD  1   2   2"], ["M  ISO  1   2  -5"], ["M  CHG  1   1   1"], []):
         items.append({"kind": "molfile", "text": co(props)})  # same atom lines, different property blocks, one rejected file
+    # V2000 atoms written as D/T with an atom-block charge code, and ordinary atoms with the same codes (state in shared tables shows as a
+    # dependence on the call order)
+    one = lambda sym, code, props=(): "\n".join(["x", "  prog", "", "  1  0  0  0  0  0  0  0  0  0999 V2000",
+                                                   f"    0.0000    0.0000    0.0000 {sym:<3} 0{code:3d}  0  0  0  0  0  0  0  0  0  0"] + list(props) + ["M  END"])
+    for code in (1, 3, 4, 5):
+        items.append({"kind": "molfile", "text": one("N", code)})
+        items.append({"kind": "molfile", "text": one(rnd.choice("DT"), code)})
+        items.append({"kind": "molfile", "text": one("O", code, ["M  CHG  1   1  -1"])})
+    dup = rnd.sample(VALID_SENTENCES, min(4, len(VALID_SENTENCES)))
+    for s in dup:
+        items.append({"kind": "tucan", "text": s})  # the same string also occurs below: a second parse must not depend on the first
+    chain = lambda n: "\n".join(["chain", "  prog", "", "  0  0  0     0  0            999 V3000", "M  V30 BEGIN CTAB", f"M  V30 COUNTS {n} {n - 1} 0 0 0", "M  V30 BEGIN ATOM"]
+                                 + [f"M  V30 {i + 1} C 0 0 0 0" for i in range(n)] + ["M  V30 END ATOM", "M  V30 BEGIN BOND"]
+                                 + [f"M  V30 {i + 1} 1 {i + 1} {i + 2}" for i in range(n - 1)] + ["M  V30 END BOND", "M  V30 END CTAB", "M  END", ""])
+    items.append({"kind": "layout", "text": chain(12)})
+    if tier != "quick":
+        items.append({"kind": "layout", "text": chain(101), "twice": False})  # coordinate calculation for a large molecule (seconds per call)
     for s in VALID_SENTENCES + ["C2/(1-1)", "C/(1-2)", "Cx/", "C2/(1-2)/(1:mass=2)(1:mass=3)", "((", "C2H6O/(1-3)(2-3", "H2O/(1-3)(2-3)/(1:mass=2)(3:rad=2"]:
         items.append({"kind": "tucan", "text": s})
-    wl = os.path.join(workdir, "c14_workload.py")
-    data = os.path.join(workdir, "c14_items.json")
-    open(wl, "w").write(C14_WORKLOAD)
-    json.dump(items, open(data, "w"))
     runs = [("plain", "0", 0), ("plain", "1", 0), ("shuffled", "12345", 1), ("shuffled", "987", 2), ("threads", "4242", 3)]
     if tier != "quick":
         runs += [("shuffled", str(1000 + i), 10 + i) for i in range(4)] + [("threads", str(50 + i), 20 + i) for i in range(3)]
     out.rule = ("one workload (%d molfiles + %d TUCAN strings incl. rejected ones) run in %d subprocesses: PYTHONHASHSEED in {0,1,12345,987,…}, "
-                "plain / shuffled call order / 4 concurrent threads; every result (string, canonical graph, molfile body) must be identical across runs. "
-                "Non-trivial = (item, run) pairs beyond the first run." % (sum(i["kind"] == "molfile" for i in items), sum(i["kind"] == "tucan" for i in items), len(runs)))
+                "plain / shuffled call order / 4 concurrent threads; every item is computed twice in a row; every result (string, canonical graph, parsed graph, molfile body, "
+                "calculated coordinates) must be identical across runs and between the two calls. "
+                "Non-trivial = (item, run) pairs beyond the first run." % (sum(i["kind"] != "tucan" for i in items), sum(i["kind"] == "tucan" for i in items), len(runs)))
+    viol, evals, nontrivial = c14_compare(repo, items, runs, workdir)
+    out.evaluations += evals
+    out.nontrivial |= nontrivial
+    for v in viol[:3]:
+        v["input"]["workload"] = items  # the whole workload is needed to replay a dependence on the call history
+        out.violations.append(v)
+    out.samples = [{"kind": "c14", "input": {"mode": m, "hashseed": h, "items": len(items)}} for (m, h, s) in runs[:3]]
+
+
+def c14_compare(repo, items, runs, workdir):
+    """run the workload `items` once per entry of `runs` (mode, PYTHONHASHSEED, shuffle seed) in a subprocess each; returns
+    (violations, evaluations, non-trivial keys). The first run is the reference."""
+    os.makedirs(workdir, exist_ok=True)
+    wl = os.path.join(workdir, "c14_workload.py")
+    data = os.path.join(workdir, "c14_items_%d.json" % os.getpid())
+    open(wl, "w").write(C14_WORKLOAD)
+    json.dump(items, open(data, "w"))
     results = []
     for mode, hs, sd in runs:
         env = dict(os.environ, PYTHONHASHSEED=hs)
-        p = subprocess.run([sys.executable, wl, repo, data, mode, str(sd)], capture_output=True, text=True, env=env, timeout=600)
+        p = subprocess.run([sys.executable, wl, repo, data, mode, str(sd)], capture_output=True, text=True, env=env, timeout=1200)
         if p.returncode != 0:
             raise RuntimeError("C14 workload crashed: " + p.stderr[-2000:])
         results.append(((mode, hs, sd), json.loads(p.stdout.strip().splitlines()[-1])))
     base = results[0][1]
+    viol, evals, nontrivial = [], 0, set()
     for (mode, hs, sd), r in results:
+        for i in r.pop("__history__", []):
+            viol.append({"kind": "c14", "input": {"mode": mode, "hashseed": hs, "seed": sd, "item": items[i]},
+                         "what": "the same call made twice in a row in one process gives two different results"})
         inc = r.pop("__inconsistent__", [])
         if inc:
-            out.violations.append({"kind": "c14", "input": {"mode": mode, "hashseed": hs, "item": items[inc[0]]}, "what": "concurrent threads got different results for the same input"})
+            viol.append({"kind": "c14", "input": {"mode": mode, "hashseed": hs, "seed": sd, "item": items[inc[0]]}, "what": "concurrent threads got different results for the same input"})
         for k, v in r.items():
-            out.evaluations += 1
+            evals += 1
             if (mode, hs, sd) != results[0][0]:
-                out.nontrivial.add((k, mode, hs, sd))
-            if v != base[k]:
-                out.violations.append({"kind": "c14", "input": {"mode": mode, "hashseed": hs, "seed": sd, "item": items[int(k)]},
-                                       "what": f"result differs from the PYTHONHASHSEED=0 plain run ({mode}, hash seed {hs})"})
+                nontrivial.add((k, mode, hs, sd))
+            if v != base.get(k):
+                viol.append({"kind": "c14", "input": {"mode": mode, "hashseed": hs, "seed": sd, "item": items[int(k)]},
+                             "what": f"result differs from the reference run (plain order, PYTHONHASHSEED={results[0][0][1]}) in run ({mode}, hash seed {hs}, order seed {sd})"})
                 break
-    out.samples = [{"kind": "c14", "input": {"mode": m, "hashseed": h, "items": len(items)}} for (m, h, s), _ in results[:3]]
+    return viol, evals, nontrivial
+
+
+def pred_c14(T, inp):
+    """replay: the recorded workload under the reference run and the run that differed"""
+    items = inp.get("workload") or [inp["item"]]
+    runs = [("plain", "0", 0), (inp.get("mode", "plain"), str(inp.get("hashseed", "0")), int(inp.get("seed", 0)))]
+    import tempfile
+    with tempfile.TemporaryDirectory() as d:
+        viol, _, _ = c14_compare(T.repo, items, runs, d)
+    return viol[0]["what"] + ": " + json.dumps(viol[0]["input"]["item"])[:300] if viol else None
+
+
+PREDICATES["c14"] = pred_c14
+EVAL_TIMEOUT_S["c14"] = 2400
 
 
 # --------------------------------------------------------------------------- probes of assumed dependency contracts (V3, V5, V6)
